@@ -99,8 +99,9 @@ def replay(ctx, scen):
   rec = {"c": scen["scenario"]["cfg"]}
   for res in parity.chunk((__name__, "compare", [rec], scen.get("seed", ctx.seed), 2, {"tol": 5e-3, "vscale": 0.3})):
     ctx.case(rec)
-    if res["bad"]:
-      ctx.violation({"what": "constrained acceleration is not the Gauss-cost optimum", "field": res["bad"][0][0]}, str(res["bad"][:5]), scen["scenario"])
+    for name in sorted({x[0] for x in res["bad"]}):  # same keys as parity.run: one per field, class after the '@'
+      fld, _, cls = name.partition("@")
+      ctx.violation(dict({"what": "constrained acceleration is not the Gauss-cost optimum", "field": fld}, **({"cls": cls} if cls else {})), str([x for x in res["bad"] if x[0] == name][:5]), scen["scenario"])
 
 
 META = {
